@@ -1,4 +1,4 @@
-import FluteModel.Lemmas.SchedOut
+import FluteModel.Lemmas.SchedMeasureFdt
 /-
   C12 - Transfer lifecycle.  All theorems quantify over every configuration, every FDT table and EVERY
   operation history (add / publish / remove / trigger / read / set_complete with arbitrary times).
@@ -190,16 +190,33 @@ theorem later_publications_exclude (cfg : Cfg) (tbl : List Nat) (ops : List Op) 
   have h := checked_at post (Ev.pub now k files) pre (hs ▸ lifecycle_checked cfg tbl ops toi)
   exact h hin
 
-/-- `read` always returns (the two `loop`s of `SenderSession::run` need at most two iterations; the model's
-    fuel of 4 is never exhausted) - for EVERY state, reachable or not.
-    PARTIAL with respect to the property clause "at any fixed instant repeated reads return nothing after
-    finitely many packets": per-call termination is proved; the bound on the number of consecutive non-empty
-    reads at one instant is NOT proved in Lean.  It is validated with an explicit measure: the engine computes
-    `mu` (remaining packets of the transfers in progress + (2 max(1,max_transfer_count) + 1) transfers per object +
-    two transfers of every FDT instance that exists or can still be published at this instant) from its shadow
-    state before every read-until-none loop and fails (`C12:read-exceeds-measure`) when the loop is longer.
-    The clause is FALSE for `fdt_duration = 0`: `read_never_idle_fdt_duration_0` (finding F24). -/
-theorem read_terminates_partial (s : State) (now : Nat) (ticks : List (Nat × Nat)) :
+/-- Reads terminate, with an explicit decreasing measure.  For `0 < fdt_duration`, after EVERY operation history and
+    for EVERY sequence of reads at one fixed instant `N` (any tick tables), the number of reads that return something
+    (object or FDT packet) is at most `mu N tbl s` (`Lemmas/SchedMeasure*.lean`):
+      `phiA` = per object in a slot: packets left in its transfer + `nPk` x the transfers it can still start at `N`
+               once that one is done; per waiting object: `nPk` x the transfers it can start at `N`
+               (no carousel: `max(1,max_transfer_count) - total`; carousel: the rest of the round, or one new round
+               if the gap test passes at `N`; after a transfer AT `N` the gap test fails: `now - N > d` is false);
+      `phiB` = packets left in the FDT transfer in progress + transfers the current instance can start at `N` + one
+               transfer per queued instance + one per instance that can still be published at `N` (one republication
+               at expiry - afterwards `last_publish = N` -, one per object transfer start in ObjectsBeingTransferred mode).
+    Proof: `phiA + #object packets` and `phiB + #FDT packets` are invariant upper bounds along reads at `N`
+    (every primitive transition of `read` shown once), and every non-empty `read` appends exactly one packet entry
+    (`read_returns_newest_entry`). -/
+theorem read_terminates (cfg : Cfg) (tbl : List Nat) (hdur : 0 < cfg.fdtDuration) (ops : List Op) (N : Nat)
+    (tks : List (List (Nat × Nat))) :
+    busyReads N (run (init cfg tbl) ops) tks ≤ mu N tbl (run (init cfg tbl) ops) :=
+  busy_reads_bounded cfg tbl hdur ops N tks
+
+/-- ... hence: polling at a fixed instant, `None` is returned after at most `mu` packets -/
+theorem read_returns_none_within_mu (cfg : Cfg) (tbl : List Nat) (hdur : 0 < cfg.fdtDuration) (ops : List Op) (N : Nat)
+    (tk : List (Nat × Nat)) :
+    ∃ k, k ≤ mu N tbl (run (init cfg tbl) ops) ∧ (reads (run (init cfg tbl) ops) N tk (k + 1)).2 = Out.none :=
+  reads_reach_none cfg tbl hdur ops N tk
+
+/-- per call: the two `loop`s of `SenderSession::run` need at most two iterations; the model's fuel of 4 is never
+    exhausted - for EVERY state, reachable or not -/
+theorem read_never_hangs (s : State) (now : Nat) (ticks : List (Nat × Nat)) :
     (read s now ticks).2 ≠ Out.hang :=
   read_no_hang s now ticks
 
@@ -250,5 +267,8 @@ def slowPoll : List Op := [.add obj1, .publish 0] ++ (List.range 6).map (fun i =
 example : (LM.run 1 (trace cfgS [] slowPoll)).starts = 0 := by decide
 example : (LM.run 1 (trace cfgS [] ([.add obj1, .publish 0] ++ (List.replicate 6 (Op.read 1000000000 []))))).stops = 1 := by
   decide
+
+/-! the measure on a concrete state: one 3-packet object waiting (max_transfer_count 2), one FDT instance queued -/
+example : mu 5 [1] (run (init cfg1 [1]) [.add obj3, .publish 5]) = 3 * 2 + 1 + (1 + 1) := by decide
 
 end Flute.Props.C12
